@@ -14,6 +14,33 @@ Definition key_of (k : val) : option str :=
   | _ => None
   end.
 
+(* []byte: the standard encoder writes the base64 text (RFC 4648, padded) of the bytes *)
+Definition b64_char (i : N) : byte :=
+  if i <? 26 then 65 + i else if i <? 52 then 97 + (i - 26) else if i <? 62 then 48 + (i - 52)
+  else if i =? 62 then 43 else 47.
+
+Fixpoint b64 (l : list N) : str :=
+  match l with
+  | [] => []
+  | a :: l1 =>
+    match l1 with
+    | [] => [b64_char (a / 4); b64_char ((a mod 4) * 16); 61; 61]
+    | b :: l2 =>
+      match l2 with
+      | [] => [b64_char (a / 4); b64_char ((a mod 4) * 16 + b / 16); b64_char ((b mod 16) * 4); 61]
+      | c :: r => b64_char (a / 4) :: b64_char ((a mod 4) * 16 + b / 16)
+                  :: b64_char ((b mod 16) * 4 + c / 64) :: b64_char (c mod 64) :: b64 r
+      end
+    end
+  end.
+
+Fixpoint bytes_of (vs : list val) : option (list N) :=
+  match vs with
+  | [] => Some []
+  | VUint n :: r => match bytes_of r with Some l => Some (n :: l) | None => None end
+  | _ :: _ => None
+  end.
+
 Section Doc.
   Variable rec : val -> option jdoc.
 
@@ -54,8 +81,9 @@ End Doc.
 
 (* documented deviations: booleans are the strings "true"/"false"; a nil slice is [] and a nil
    map is {} (the standard encoder writes null); nil pointer is null; unexported fields omitted.
-   None: the standard encoder has no document for the value (func/chan), or it is a []byte
-   (base64 text in the standard encoder — outside this specification). *)
+   None: the standard encoder has no document for the value (func/chan).  A non-nil []byte is
+   the base64 string the standard encoder writes (the dumper prints an array of numbers: []byte
+   is outside [dumpable], see the C20 findings). *)
 Fixpoint doc_of (v : val) : option jdoc :=
   match v with
   | VInvalid => Some JNull
@@ -66,7 +94,9 @@ Fixpoint doc_of (v : val) : option jdoc :=
   | VStr s => Some (JStr s)
   | VNilPtr => Some JNull
   | VPtr x => doc_of x
-  | VSlice bytes _ vs => if bytes then None else option_map JArr (docs_of doc_of vs)
+  | VSlice bytes isnil vs =>
+    if bytes then (if isnil then Some (JArr []) else option_map (fun l => JStr (b64 l)) (bytes_of vs))
+    else option_map JArr (docs_of doc_of vs)
   | VArray vs => option_map JArr (docs_of doc_of vs)
   | VMap _ es => option_map JObj (entries_of doc_of es)
   | VStruct _ fs => option_map JObj (members_of doc_of fs)
